@@ -1174,12 +1174,13 @@ def evaluate__xml_to_json(self: XPathFunction, context: ta.ContextType = None) \
                     raise self.error('FOJS0006', msg)
 
                 value = ''.join(etree_iter_strings(child))
-                check_escapes(value)
 
                 escaped = child.get('escaped', '0').strip()
                 if escaped not in BOOLEAN_VALUES:
                     msg = f"{child} has an invalid value for 'escaped' attribute"
                     raise self.error('FOJS0006', msg)
+                if escaped in ('true', '1'):
+                    check_escapes(value)
 
                 value = escape_json_string(value, escaped in ('true', '1'))
                 chunks.append(f'"{value}"')
@@ -1203,12 +1204,12 @@ def evaluate__xml_to_json(self: XPathFunction, context: ta.ContextType = None) \
                         msg = f'object invalid key type {type(key)}'
                         raise self.error('FOJS0006', msg)
 
-                    check_escapes(key)
-
                     escaped_key = e.get('escaped-key', '0').strip()
                     if escaped_key not in BOOLEAN_VALUES:
                         msg = f"{e} has an invalid value for 'escaped-key' attribute"
                         raise self.error('FOJS0006', msg)
+                    if escaped_key in ('true', '1'):
+                        check_escapes(key)
 
                     key = escape_json_string(key, escaped=escaped_key in ('true', '1'))
                     map_chunks.append(f'"{key}":{elem_to_json((e,))}')
